@@ -457,10 +457,10 @@ class RangeConstraint(Constraint):
                     )
                 ],
             )
-        # Convert value to numeric type
+        # Convert value to numeric type (ints stay ints: Python compares int and float exactly)
         try:
-            numeric_value = float(value) if isinstance(value, int | float) else float(value)
-        except (ValueError, TypeError):
+            numeric_value = value if isinstance(value, int | float) else float(value)
+        except (ValueError, TypeError, OverflowError):
             return ValidationResult(
                 valid=False,
                 errors=[
@@ -475,8 +475,8 @@ class RangeConstraint(Constraint):
                 ],
             )
 
-        # Check bounds (inclusive)
-        if numeric_value < self.min_value or numeric_value > self.max_value:
+        # Check bounds (inclusive); NaN is not in any range
+        if not (self.min_value <= numeric_value <= self.max_value):
             return ValidationResult(
                 valid=False,
                 errors=[
